@@ -25,6 +25,15 @@ Descriptor (JSON)
           from the body of that with (during) or from inside the resource's __exit__ reached through the
           generator's exit (a context that really is exiting, generator running)
   frames: own frame of the generator of gcm manager m = m, its `yield from` callee = 500+m.
+
+History descriptors (_kind "hist") have no ctx/mode but
+  hist  [op...]   op = ["reg", m]            register the hooks of synthetic manager m now (managers with a "reg"
+                                             op start unregistered although "hooked" is true)
+                     | ["fill", mode, ctx]   one fill_context, mode outside | inside
+                     | ["frame", rc, [m..]]  ONE real frame `with m0: with m1: ...: yield` extracted with
+                                             extract(with_contexts=True, recurse_child_tasks=rc): extract_iter itself
+                                             runs fill_context on each context and contains the failures
+  generator-based managers used as frame roots are in state "new", sync, and are entered by that frame (once).
 """
 from __future__ import annotations
 
@@ -36,8 +45,9 @@ from .common import cbool, clist, copt
 
 PROP = "C11"
 IMPORTS = "From SS Require Import Base M_Contexts.\nFrom SS.gen Require Import SrcFacts."
-KINDS = {"main": dict(imports=IMPORTS, type="ccase", mismatch="mismatches", nontrivial="count_nontrivial")}
-SHARD = 250
+KINDS = {"main": dict(imports=IMPORTS, type="ccase", mismatch="mismatches", nontrivial="count_nontrivial"),
+         "hist": dict(imports=IMPORTS, type="hcase", mismatch="hmismatches", nontrivial="hcount_nontrivial")}
+SHARD = 120
 RULE = ("random hook tables over 2..7 managers (synthetic classes with/without registered hooks, falsy and ==() "
         "instances; generator-based managers from fresh @contextmanager functions in the states new/entered/finished, "
         "with and without `yield from`, sharing functions) with unwrap results {None, PRUNE, manager (forward, self, "
@@ -47,7 +57,12 @@ RULE = ("random hook tables over 2..7 managers (synthetic classes with/without r
         "dedicated tables for the generator-based lookup against a pre-set inner_stack; generator-based wrappers whose "
         "body is `with resource: yield` (sync/async) with hooks answering frame.contexts[0].obj, on exiting and non-exiting "
         "contexts, outside/inside extract, and through a real `with` observed from its body and from inside the "
-        "resource's __exit__ while the generator runs its exit; linear chains of 0..3 and 98..102 steps, self-, 2- and mixed cycles; thorough adds the exhaustive scope of 2 free "
+        "resource's __exit__ while the generator runs its exit; HISTORIES (kind hist): sequences of register-hooks / fill / real-frame operations over one set of managers "
+        "(hooks registered after a manager was first filled hookless, directly, in a frame or as an unwrap result; frames "
+        "of 2..5 nested with-blocks extracted by the real extract(), with a context failing by cycle guard / raising "
+        "elaborate / raising unwrap before contexts that need unwrapping, PRUNE, generator-based elaboration), each "
+        "step compared with the model under the registry at that time and each frame context with its isolated fill; "
+        "linear chains of 0..3 and 98..102 steps, self-, 2- and mixed cycles; thorough adds the exhaustive scope of 2 free "
         "managers + sink. distinct = distinct descriptors; non-trivial = the model run replaces the manager, hides the "
         "context or raises")
 CONFIG = dict(
@@ -373,6 +388,118 @@ def with_specials():
     return out
 
 
+# ------------------------------------------------------------------ histories (register / fill / frame sequences)
+HIST_MODES = (["outside"], ["outside"], ["inside", True, False], ["inside", True, True], ["inside", False, True])
+
+
+def _frame_roots_ok(d):
+    """managers that may be a with-target of a real frame: synthetic (not ==()), or generator-based, sync, new"""
+    out = []
+    for m, a in d["mgr"].items():
+        if a["k"] == "syn":
+            if not a.get("eqp"):
+                out.append(int(m))
+        elif a["state"] == "new" and not d["fns"][str(a["fn"])].get("async"):
+            out.append(int(m))
+    return out
+
+
+def gen_hist_case(rng: random.Random):
+    base = gen_case(rng)
+    d = {k: base[k] for k in ("mgr", "fns", "xfr", "elab", "unwrap")}
+    n = len(d["mgr"])
+    syn = {"k": "syn", "hooked": True, "falsy": False, "eqp": False}
+    # three managers whose fill fails in a contained way: cycle guard, raising elaborate, raising unwrap
+    d["mgr"][str(n)] = dict(syn)
+    d["elab"][str(n)] = [["ad", 1]]
+    d["unwrap"][str(n)] = ["to", n]
+    d["mgr"][str(n + 1)] = dict(syn)
+    d["elab"][str(n + 1)] = [["sd", 2], ["raise"]]
+    d["unwrap"][str(n + 1)] = ["none"]
+    d["mgr"][str(n + 2)] = dict(syn)
+    d["elab"][str(n + 2)] = [["ac", 3]]
+    d["unwrap"][str(n + 2)] = ["raise"]
+    failing = [n + 1, n + 2] * 5 + [n]
+    hooked = [int(m) for m, a in d["mgr"].items() if a["k"] == "syn" and a["hooked"]]
+    late = [m for m in hooked if rng.random() < (0.45 if m < n else 0.15)]
+    allm = list(range(n + 3))
+    gcm_roots_left = [m for m in _frame_roots_ok(d) if d["mgr"][str(m)]["k"] == "gcm"]
+    syn_roots = [m for m in _frame_roots_ok(d) if d["mgr"][str(m)]["k"] == "syn"]
+
+    def a_fill(obj=None):
+        return ["fill", list(rng.choice(HIST_MODES)),
+                _default_ctx(rng.choice(allm) if obj is None else obj, rng.random() < 0.3)]
+
+    def a_frame(must=None):
+        k = rng.randrange(2, 5)
+        roots = []
+        if rng.random() < 0.6:
+            roots.append(rng.choice(failing))
+        if must is not None and must not in roots:
+            roots.append(must)
+        tries = 0
+        while len(roots) < k and tries < 40:
+            tries += 1
+            z = rng.random()
+            if z < 0.25 and gcm_roots_left:
+                roots.append(gcm_roots_left.pop(rng.randrange(len(gcm_roots_left))))
+            elif z < 0.35:
+                c = rng.choice(failing)
+                if c not in roots:
+                    roots.append(c)
+            elif syn_roots:
+                c = rng.choice(syn_roots)
+                if c not in roots:
+                    roots.append(c)
+        if rng.random() < 0.3:
+            rng.shuffle(roots)
+        return ["frame", rng.random() < 0.4, roots]
+
+    ops = [a_frame() if rng.random() < 0.45 else a_fill() for _ in range(rng.randrange(2, 5))]
+    for m in late:
+        p = rng.randrange(len(ops) + 1)
+        seq = []
+        if rng.random() < 0.75:      # seen without hooks first (directly, in a frame, or as an unwrap result)
+            seq.append(a_fill(m) if rng.random() < 0.6 or m not in syn_roots else a_frame(m))
+        seq.append(["reg", m])
+        if rng.random() < 0.85:
+            seq.append(a_fill(m) if rng.random() < 0.6 or m not in syn_roots else a_frame(m))
+        ops[p:p] = seq
+    d["hist"] = ops
+    d["_kind"] = "hist"
+    if any(a.get("eqp") for a in d["mgr"].values()):
+        d["_sig"] = "C11_manager_equal_to_empty_tuple"
+    return d
+
+
+def hist_specials():
+    syn = {"k": "syn", "hooked": True, "falsy": False, "eqp": False}
+    out = []
+    # hooks registered after the type was first seen hookless: direct, as an unwrap result, PRUNE, in a frame
+    for mode in (["outside"], ["inside", True, False]):
+        out.append({"_kind": "hist", "fns": {}, "xfr": {},
+                    "mgr": {"0": syn, "1": syn, "2": syn, "3": syn},
+                    "elab": {"0": [["sd", 1]], "1": [["ad", 2], ["ac", 2]], "2": [["ad", 3]], "3": [["sd", 4]]},
+                    "unwrap": {"0": ["to", 2], "1": ["to", 0], "2": ["none"], "3": ["prune"]},
+                    "hist": [["fill", mode, _default_ctx(0)], ["fill", mode, _default_ctx(3)], ["frame", False, [0, 3]],
+                             ["reg", 0], ["reg", 3],
+                             ["fill", mode, _default_ctx(0)], ["fill", mode, _default_ctx(1)],
+                             ["fill", mode, _default_ctx(3)], ["frame", False, [3, 0, 1]]]})
+    # an earlier context of the same frame fails (cycle guard / raising elaborate / raising unwrap); the later ones
+    # need unwrapping, a description + inner_stack (generator-based), PRUNE
+    for first in (4, 5, 6):
+        for rc in (False, True):
+            out.append({"_kind": "hist", "xfr": {},
+                        "fns": {"0": {"yf": False, "reg": None}, "1": {"yf": True, "reg": ["to", 1]}},
+                        "mgr": {"0": syn, "1": syn, "2": {"k": "gcm", "fn": 0, "state": "new"}, "3": syn, "4": syn, "5": syn,
+                                "6": syn, "7": {"k": "gcm", "fn": 1, "state": "new"}},
+                        "elab": {"0": [["sd", 1]], "1": [["ad", 2], ["ac", 2]], "3": [["sd", 4]], "4": [["ad", 1]],
+                                 "5": [["sd", 2], ["raise"]], "6": [["ac", 3]]},
+                        "unwrap": {"0": ["to", 1], "1": ["none"], "3": ["prune"], "4": ["to", 4], "5": ["none"], "6": ["raise"]},
+                        "hist": [["frame", rc, [first, 0, 2, 3]], ["frame", rc, [1, 5, 7, 6, 3]]]})
+    return out
+
+
 E_ALPH = [[], [["sd", 1]], [["ac", 1]], [["si", []]], [["so", 2]], [["ad", 2], ["sc", [3]]], [["raise"]]]
 U_ALPH = [["none"], ["prune"], ["to", 0], ["to", 1], ["to", 2], ["raise"]]
 
@@ -420,6 +547,9 @@ def make_inputs(tier, seed):
         yield gen_path_case(rng)
     for _ in range(n // 5):
         yield gen_with_case(rng)
+    yield from hist_specials()
+    for _ in range(n // 10):
+        yield gen_hist_case(rng)
     if tier == "thorough":
         yield from exhaustive()
     else:
@@ -474,6 +604,19 @@ def probe_options():
     st2 = extract_child(p["ctxgen"], for_task=False)
     wc = bool(st2.frames and st2.frames[0].contexts)
     return [wc, rc]
+
+
+_HOOK_PROBE = {"n": 0, "last": None}
+
+
+def hook_probe():
+    """options as seen by a hook call: probed for the first 8 hook calls of a run and then for every 16th (long
+    cycles make hundreds of calls, each probe is two extractions); in between the last probed value is reported"""
+    st = _HOOK_PROBE
+    st["n"] += 1
+    if st["n"] <= 8 or st["n"] % 16 == 0:
+        st["last"] = probe_options()
+    return st["last"]
 
 
 def _registry_dict(dispatcher):
@@ -619,7 +762,7 @@ def run_case(d):
         ur = d["unwrap"].get(str(m), ["none"])
 
         def elab(mgr, context):
-            log.append(["elab", oid.get(id(mgr), 4999), probe_options()])
+            log.append(["elab", oid.get(id(mgr), 4999), hook_probe()])
             for e in effs:
                 if e[0] == "sd":
                     context.description = f"t{e[1]}"
@@ -637,25 +780,30 @@ def run_case(d):
                     raise Boom("elab", m)
 
         def unwrap(mgr, context):
-            log.append(["unwrap", oid.get(id(mgr), 4999), probe_options()])
+            log.append(["unwrap", oid.get(id(mgr), 4999), hook_probe()])
             if ur[0] == "raise":
                 raise Boom("unwrap", m)
             return conv_ures(ur)
         return elab, unwrap
 
+    late = {op[1] for op in d.get("hist", []) if op[0] == "reg"}
+
+    def register_syn(m):
+        e, u = make_hooks(m)
+        elaborate_context.register(classes[m], e)
+        unwrap_context.register(classes[m], u)
+        reg_cls.append(classes[m])
+
     for m, a in d["mgr"].items():
         m = int(m)
-        if a["k"] == "syn" and a["hooked"]:
-            e, u = make_hooks(m)
-            elaborate_context.register(classes[m], e)
-            unwrap_context.register(classes[m], u)
-            reg_cls.append(classes[m])
+        if a["k"] == "syn" and a["hooked"] and m not in late:
+            register_syn(m)
 
     def make_ghook(c, r, ctx0):
         def ghook(frame, context):
             log.append(["gen", code_id.get(id(frame.pyframe.f_code), 4999), fid.get(id(frame.pyframe), 4999),
                         context.inner_stack is None, [oid.get(id(cx.obj), 4999) for cx in frame.contexts],
-                        probe_options()])
+                        hook_probe()])
             if ctx0 and frame.contexts:
                 return frame.contexts[0].obj
             if r[0] == "raise":
@@ -669,9 +817,7 @@ def run_case(d):
             reg_code.append(stackscope.lowlevel.get_code(fn_of[int(c)]))
 
     # --- the Context
-    cs = d["ctx"]
-
-    def build_ctx():
+    def build_ctx(cs):
         return Context(obj=objs[cs["obj"]], is_async=False, is_exiting=cs["exiting"],
                        inner_stack=None if cs["inner"] is None else mkstack(cs["inner"]),
                        children=[Stack(root=Kid(k), frames=[]) for k in cs["children"]] if cs["children"] else (),
@@ -728,11 +874,12 @@ def run_case(d):
                 "children": [getattr(getattr(k, "root", None), "k", 4999) for k in c.children],
                 "hide": bool(c.hide), "descr": descr_of(c.description), "exiting": bool(c.is_exiting)}
 
-    mode = d["mode"]
-    obs = {}
-    try:
+    def run_one(cs, mode):
+        obs = {}
+        start = len(log)
+        _HOOK_PROBE["n"] = 0
         if mode[0] == "outside":
-            ctx = build_ctx()
+            ctx = build_ctx(cs)
             before = probe_options()
             try:
                 fill_context(ctx)
@@ -741,7 +888,7 @@ def run_case(d):
                 exc = ex
             obs = {"ctx": ctx_of(ctx), "exc": exc_of(exc), "before": before, "after": probe_options()}
         elif mode[0] == "inside":
-            ctx = build_ctx()
+            ctx = build_ctx(cs)
             box = {}
 
             class Item:
@@ -810,9 +957,86 @@ def run_case(d):
                            "unset_after": probe_options() is None}
             finally:
                 g.close()
-        obs["log"] = log
+        obs["log"] = log[start:]
         return obs
+
+    holders = []
+
+    def run_frame(rc, roots):
+        """one real frame holding all `roots` as nested with-blocks; extract() fills each context itself"""
+        start = len(log)
+        _HOOK_PROBE["n"] = 0
+        names = ", ".join(f"m{i}" for i in range(len(roots)))
+        src = f"def holder({names}):\n"
+        for i in range(len(roots)):
+            src += "    " * (i + 1) + f"with m{i}:\n"
+        src += "    " * (len(roots) + 1) + "yield\n"
+        ns = {}
+        exec(src, ns)
+        g = ns["holder"](*[objs[r] for r in roots])
+        next(g)
+        holders.append(g)
+        for r in roots:   # frames of generators entered just now
+            gen = getattr(objs[r], "gen", None)
+            sub = getattr(gen, "gi_yieldfrom", None)
+            if sub is not None and getattr(sub, "gi_frame", None) is not None:
+                pyf[500 + r] = sub.gi_frame
+                fid[id(sub.gi_frame)] = 500 + r
+        st = extract(g, with_contexts=True, recurse_child_tasks=rc)
+        cxs = list(st.frames[0].contexts) if st.frames else []
+        err = st.error
+        errs = [] if err is None else (list(err.exceptions) if hasattr(err, "exceptions") else [err])
+        obs = {"kind": "frame", "n": len(cxs), "ctxs": [ctx_of(c) for c in cxs], "errs": [exc_of(e) for e in errs],
+               "log": log[start:], "unset_after": probe_options() is None}
+        # the same managers, each filled in isolation inside an extract with the same options
+        keep = len(log)
+        iso = []
+
+        class Item:
+            pass
+
+        def item_hook(it):
+            for r in roots:
+                _HOOK_PROBE["n"] = 0
+                c = Context(obj=objs[r], is_async=False)
+                try:
+                    fill_context(c)
+                    ex = None
+                except Exception as e:
+                    ex = e
+                iso.append([ctx_of(c), exc_of(ex)])
+            return None
+        unwrap_stackitem.register(Item, item_hook)
+        reg_item.append(Item)
+        extract(Item(), with_contexts=True, recurse_child_tasks=rc)
+        del log[keep:]
+        obs["iso"] = iso
+        return obs
+
+    def run_hist():
+        steps = []
+        for op in d["hist"]:
+            if op[0] == "reg":
+                register_syn(op[1])
+                steps.append({"kind": "reg"})
+            elif op[0] == "fill":
+                o = run_one(op[2], op[1])
+                o["kind"] = "fill"
+                steps.append(o)
+            else:
+                steps.append(run_frame(op[1], op[2]))
+        return {"steps": steps}
+
+    try:
+        if "hist" in d:
+            return run_hist()
+        return run_one(d["ctx"], d["mode"])
     finally:
+        for g in holders:
+            try:
+                g.close()
+            except Exception:
+                pass
         _unregister(elaborate_context, reg_cls)
         _unregister(unwrap_context, reg_cls)
         _unregister(unwrap_context_generator, reg_code)
@@ -947,7 +1171,94 @@ def c_case(d, obs):
             f"({out}, {clist(c_ev(e) for e in obs['log'])}, {c_opts(obs['after'])}))")
 
 
-coq_case = c_case
+def step_desc(d, k, ctx=None, mode=None):
+    """the descriptor as a single-fill case sees it at history step k: hooks registered so far, generators
+    entered so far (derived from the descriptor's history alone)"""
+    hist = d["hist"]
+    late = {op[1] for op in hist if op[0] == "reg"}
+    registered = {op[1] for op in hist[:k] if op[0] == "reg"}
+    entered = set()
+    for op in hist[:k + 1]:
+        if op[0] == "frame":
+            entered |= {r for r in op[2] if d["mgr"][str(r)]["k"] == "gcm"}
+    mgr = {}
+    for m, a in d["mgr"].items():
+        a = dict(a)
+        if a["k"] == "gcm" and int(m) in entered:
+            a["state"] = "ent"
+        if a["k"] == "syn" and a["hooked"] and int(m) in late and int(m) not in registered:
+            a["hooked"] = False
+        mgr[m] = a
+    sd = {k2: v for k2, v in d.items() if k2 not in ("hist", "_kind")}
+    sd.update(mgr=mgr, ctx=ctx or _default_ctx(0), mode=mode or ["inside", True, False])
+    return sd
+
+
+def c_ferr(e):
+    if e[0] == "boom":
+        w = {"elab": "WElab", "unwrap": "WUnwrap", "gen": "WGen"}.get(e[1], "WElab")
+        return f"(FHook ({w} {e[2]}))"
+    if e[0] == "loop" and e[1][0] == "to":
+        return f"(FLoop {e[1][1]} {c_ures(e[3])})"
+    return "(FHook (WElab 4999))"
+
+
+def c_hist(d, obs):
+    steps = []
+    for k, (op, o) in enumerate(zip(d["hist"], obs["steps"])):
+        if op[0] == "reg":
+            continue
+        if op[0] == "fill":
+            steps.append("(SFill " + c_case(step_desc(d, k, op[2], op[1]), o) + ")")
+        else:
+            sd = step_desc(d, k)
+            init = clist(c_ctx(_default_ctx(r)) for r in op[2])
+            seen = clist(c_ctx(c) for c in o["ctxs"])
+            steps.append(f"(SFrame {c_cfg(sd)} {cbool(op[1])} {init} "
+                         f"({seen}, {clist(c_ferr(e) for e in o['errs'])}, {clist(c_ev(e) for e in o['log'])}))")
+    return clist(steps)
+
+
+def coq_case(d, obs):
+    if d.get("_kind") == "hist":
+        return c_hist(d, obs)
+    return c_case(d, obs)
+
+
+def hist_oracle(d, obs):
+    for k, (op, o) in enumerate(zip(d["hist"], obs["steps"])):
+        # a manager whose class has hooks registered AT THIS TIME must get its elaborate hook called first, no
+        # matter what happened to contexts of that class earlier in the history
+        if op[0] in ("fill", "frame"):
+            sd = step_desc(d, k)
+            roots = [op[2]["obj"]] if op[0] == "fill" else [op[2][0]]
+            a = sd["mgr"][str(roots[0])]
+            if a["k"] == "syn" and a["hooked"] and (not o["log"] or o["log"][0][:2] != ["elab", roots[0]]):
+                return (f"step {k}: hooks are registered for manager {roots[0]} at this point of the history but its "
+                        f"elaborate hook was not the first hook call (log starts {o['log'][:2]})")
+        if op[0] == "fill":
+            if o["exc"][0] == "other":
+                return f"step {k}: fill_context failed in an unexpected way: {o['exc'][1]}"
+            entry = _entry(op[1])
+            if o.get("before") != entry or o.get("after") != entry:
+                return f"step {k}: extract options before/after fill_context are {o.get('before')}/{o.get('after')}, expected {entry}"
+        elif op[0] == "frame":
+            if o["n"] != len(op[2]):
+                return f"step {k}: the frame shows {o['n']} contexts for {len(op[2])} with-blocks"
+            if any(e[0] == "other" for e in o["errs"]):
+                return f"step {k}: unexpected error in the extracted stack: {o['errs']}"
+            if not o.get("unset_after"):
+                return f"step {k}: extract options still set after extract()"
+            # every context of the frame must come out as fill_context gives it in isolation, whatever happened
+            # to the contexts before it; the stack's errors are exactly the isolated failures, in order
+            for i, (c, iso) in enumerate(zip(o["ctxs"], o["iso"])):
+                if c != iso[0]:
+                    return (f"step {k}: context {i} (manager {op[2][i]}) of the frame is {c}, but fill_context on the "
+                            f"same manager in isolation gives {iso[0]}; errors of the stack: {o['errs']}")
+            want = [iso[1] for iso in o["iso"] if iso[1][0] != "ok"]
+            if o["errs"] != want:
+                return f"step {k}: errors of the stack {o['errs']} differ from the isolated failures {want}"
+    return None
 
 
 # ------------------------------------------------------------------ oracles on the implementation alone
@@ -967,6 +1278,8 @@ def _verdict(obs):
 
 
 def direct_oracle(d, obs):
+    if d.get("_kind") == "hist":
+        return hist_oracle(d, obs)
     mode = d["mode"]
     ex = obs["exc"]
     if ex[0] == "other":
@@ -1008,8 +1321,32 @@ def direct_oracle(d, obs):
     return None
 
 
+def classify_hist(d, obs):
+    labs = ["mode:history"]
+    seen = set()
+    for k, (op, o) in enumerate(zip(d["hist"], obs["steps"])):
+        if op[0] == "reg":
+            if op[1] in seen:
+                labs.append("hist:registered-after-first-sighting")
+        elif op[0] == "fill":
+            seen.add(op[2]["obj"])
+            seen.add((o.get("ctx") or {}).get("obj"))
+        else:
+            seen.update(op[2])
+            seen.update(c["obj"] for c in o["ctxs"])
+            labs.append("hist:frame-contexts=%d" % len(op[2]))
+            bad = [i for i, iso in enumerate(o["iso"]) if iso[1][0] != "ok"]
+            if bad and bad[0] < len(op[2]) - 1:
+                labs.append("hist:frame-later-context-after-failure")
+    labs.append("hist:ops=%d" % min(len(d["hist"]), 12))
+    return sorted(set(labs))
+
+
 def classify(d, obs):
+    if d.get("_kind") == "hist":
+        return classify_hist(d, obs)
     labs = ["mode:" + d["mode"][0], "exc:" + obs["exc"][0]]
+
     if any(e[0] == "gen" and e[4] for e in obs["log"]):
         labs.append("gen-hook-saw-contexts")
     steps = sum(1 for e in obs["log"] if e[0] in ("unwrap", "gen"))
